@@ -303,6 +303,9 @@ func TestVerifC13Load(t *testing.T) {
 	// (c13_loadvalues_test.go).
 	c13LoadValues(t, rep, docs, last)
 
+	// Log levels of the process (c13_loadlevel_test.go).
+	c13LoadLevels(t, rep, docs, last)
+
 	// YAML file-format features (c13_loadyaml_test.go).
 	c13LoadYAMLFeatures(t, rep, docs, last)
 
